@@ -75,7 +75,7 @@ P.verify(fn(
     requires=[('demand_side', "prefix == 'DEM'"),
               ('zone_objects_exist', 'all(allocated(self.CurrencyZone.CountryList[cc]) and allocated(self.CurrencyZone.CountryList[cc].SectorList) for cc in range(0, len(self.CurrencyZone.CountryList)))'),
               ('market_code_is_local', "not ('__' in 'DEM_' + self.Code)")],
-    hints={('empty_list', 'term_list'): STR, ('empty_list', 'had_'): INT, ('empty_list', 'pos_'): INT, ('empty_list', 'ix_'): INT},
+    hints={'strip_rich': True, ('empty_list', 'term_list'): STR, ('empty_list', 'had_'): INT, ('empty_list', 'pos_'): INT, ('empty_list', 'ix_'): INT},
     ghost_after=[('term_list = []', 'had_ = []\npos_ = []\nix_ = []'),
                  ('if self.ShareParent(s):', 'if var_name in s.EquationBlock.Equations:\n    had_[len(had_) - 1] = 1\n_snapshot("HP")'),
                  ("term_list.append('+ ' + term)", 'pos_[len(pos_) - 1] = len(term_list) - 1\nix_.append(len(pos_) - 1)\n_snapshot("HP")'),
